@@ -92,7 +92,7 @@ theorem indexOf_none_of_empty (mods : Mods) (h : indexEmpty mods = true) (nm : S
 
 /-- what `find` hands back for a name the dependency loader has no entry for is — as a binding — what the
     specification says -/
-theorem depFind_spec (s : Sys) (d : Nat) (mods : Mods) (n : Name) (hlk : lk (canon n) (s.ents d) = none)
+theorem depFind_spec (s : Sys) (d : Nat) (mods : Mods) (n : Name) (hlk : (lk (canon n) (s.ents d)).join = none)
     (hp : PartsOK mods n) : ∃ e, depFind s d mods n = .ok e ∧ e.join = depSpec s mods n := by
   have hrest : ∃ e, (match depLoop s (canon n) mods with
       | some v => LE.ok (some (some v))
@@ -100,7 +100,7 @@ theorem depFind_spec (s : Sys) (d : Nat) (mods : Mods) (n : Name) (hlk : lk (can
       e.join = mods.findSome? fun m => resolve s m.2 (canon n) := by
     rw [← depLoop_spec]
     cases depLoop s (canon n) mods with
-    | none => exact ⟨_, rfl, by rw [hlk]; rfl⟩
+    | none => exact ⟨_, rfl, hlk⟩
     | some v => exact ⟨_, rfl, rfl⟩
   unfold depFind depSpec namedModule
   by_cases hq : (!indexEmpty mods && isQualified n) = true
@@ -132,52 +132,88 @@ theorem depFind_spec (s : Sys) (d : Nat) (mods : Mods) (n : Name) (hlk : lk (can
       simp only [he', this, Bool.not_false, Bool.and_false, Bool.false_eq_true, if_false]
       exact hrest
 
-theorem depLoadEntry_cached (s : Sys) (d : Nat) (mods : Mods) (n : Name) (e : Option V)
-    (h : lk (canon n) (s.ents d) = some e) : depLoadEntry s d mods n = (s, .ok (some e)) := by
-  unfold depLoadEntry; rw [h]
-
 theorem setEntry_fresh (es : Ents) (k : Key) (nv : Option V) (h : lk k es = none) :
     setEntry es k nv = (put k nv es, .stored) := by
   unfold setEntry; rw [h]
 
-theorem depLoadEntry_fresh (s : Sys) (d : Nat) (mods : Mods) (n : Name) (e : Option (Option V))
-    (h : lk (canon n) (s.ents d) = none) (hf : depFind s d mods n = .ok e) :
-    depLoadEntry s d mods n = (s.setEnts d (put (canon n) e.join (s.ents d)), .ok (some e.join)) := by
-  unfold depLoadEntry
-  rw [h, hf]
-  simp only [setEntry_fresh _ _ _ h]
+theorem setEntry_unbound' (es : Ents) (k : Key) (nv : Option V) (h : (lk k es).join = none) :
+    setEntry es k nv = (put k nv es, .stored) := by
+  unfold setEntry
+  cases hl : lk k es with
+  | none => rfl
+  | some o =>
+    cases o with
+    | none => rfl
+    | some v => rw [hl] at h; cases h
+
+theorem depLoadEntry_cached (s : Sys) (d : Nat) (mods : Mods) (n : Name) (v : V)
+    (h : lk (canon n) (s.ents d) = some (some v)) : depLoadEntry s d mods n = (s, .ok (some (some v))) := by
+  unfold depLoadEntry; rw [h]
+
+/-- the ways `LoadEntry` of a dependency loader ends: a cached value; the panic of `Parts()`; a value found (stored, over
+    a recorded miss if there is one); nothing found and no entry (the miss is recorded); nothing found and a recorded miss -/
+theorem depLoadEntry_cases (s : Sys) (d : Nat) (mods : Mods) (n : Name) :
+    (∃ v, lk (canon n) (s.ents d) = some (some v) ∧ depLoadEntry s d mods n = (s, .ok (some (some v)))) ∨
+    ((lk (canon n) (s.ents d)).join = none ∧ depFind s d mods n = .bad ∧ depLoadEntry s d mods n = (s, .bad)) ∨
+    (∃ e v, (lk (canon n) (s.ents d)).join = none ∧ depFind s d mods n = .ok e ∧ e.join = some v ∧
+      depLoadEntry s d mods n = (s.setEnts d (put (canon n) (some v) (s.ents d)), .ok (some (some v)))) ∨
+    (∃ e, lk (canon n) (s.ents d) = none ∧ depFind s d mods n = .ok e ∧ e.join = none ∧
+      depLoadEntry s d mods n = (s.setEnts d (put (canon n) none (s.ents d)), .ok (some none))) ∨
+    (∃ e, lk (canon n) (s.ents d) = some none ∧ depFind s d mods n = .ok e ∧ e.join = none ∧
+      depLoadEntry s d mods n = (s, .ok (some none))) := by
+  cases hlk : lk (canon n) (s.ents d) with
+  | none =>
+    right
+    cases hf : depFind s d mods n with
+    | bad => left; refine ⟨rfl, rfl, ?_⟩; unfold depLoadEntry; simp only [hlk, hf]
+    | ok e =>
+      right
+      cases hj : e.join with
+      | some v =>
+        left; refine ⟨e, v, rfl, rfl, hj, ?_⟩
+        unfold depLoadEntry; simp only [hlk, hf, hj, setEntry_fresh _ _ _ hlk]
+      | none =>
+        right; left; refine ⟨e, rfl, rfl, hj, ?_⟩
+        unfold depLoadEntry; simp only [hlk, hf, hj, setEntry_fresh _ _ _ hlk]
+  | some o =>
+    cases o with
+    | some v => left; exact ⟨v, rfl, depLoadEntry_cached s d mods n v hlk⟩
+    | none =>
+      right
+      cases hf : depFind s d mods n with
+      | bad => left; refine ⟨rfl, rfl, ?_⟩; unfold depLoadEntry; simp only [hlk, hf]
+      | ok e =>
+        right
+        cases hj : e.join with
+        | some v =>
+          left; refine ⟨e, v, rfl, rfl, hj, ?_⟩
+          have hs : setEntry (s.ents d) (canon n) (some v) = (put (canon n) (some v) (s.ents d), .stored) :=
+            setEntry_unbound' _ _ _ (by rw [hlk]; rfl)
+          unfold depLoadEntry; simp only [hlk, hf, hj, hs]
+        | none =>
+          right; right; refine ⟨e, rfl, rfl, hj, ?_⟩
+          unfold depLoadEntry; simp only [hlk, hf, hj]
 
 theorem depLoadEntry_bad (s : Sys) (d : Nat) (mods : Mods) (n : Name) (h : (depLoadEntry s d mods n).2 = .bad) :
     (depLoadEntry s d mods n).1 = s := by
-  cases hlk : lk (canon n) (s.ents d) with
-  | some e0 => rw [depLoadEntry_cached s d mods n e0 hlk]
-  | none =>
-    cases hf : depFind s d mods n with
-    | bad => unfold depLoadEntry; simp only [hlk, hf]
-    | ok e1 =>
-      rw [depLoadEntry_fresh s d mods n e1 hlk hf] at h
-      cases h
+  rcases depLoadEntry_cases s d mods n with ⟨v, _, he⟩ | ⟨_, _, he⟩ | ⟨e, v, _, _, _, he⟩ | ⟨e, _, _, _, he⟩ | ⟨e, _, _, _, he⟩
+  · rw [he]
+  · rw [he]
+  · rw [he] at h; cases h
+  · rw [he] at h; cases h
+  · rw [he]
 
 /-- after an answered `LoadEntry` the dependency loader holds the entry it handed back -/
 theorem depLoadEntry_ok (s : Sys) (d : Nat) (mods : Mods) (n : Name) (hd : d < s.es.length) (e : Option (Option V))
     (h : (depLoadEntry s d mods n).2 = .ok e) : lk (canon n) ((depLoadEntry s d mods n).1.ents d) = e := by
-  cases hlk : lk (canon n) (s.ents d) with
-  | some e0 =>
-    rw [depLoadEntry_cached s d mods n e0 hlk] at h ⊢
-    simp only [LE.ok.injEq] at h
-    rw [← h]; exact hlk
-  | none =>
-    cases hf : depFind s d mods n with
-    | bad =>
-      exfalso
-      unfold depLoadEntry at h
-      simp only [hlk, hf] at h
-      cases h
-    | ok e1 =>
-      rw [depLoadEntry_fresh s d mods n e1 hlk hf] at h ⊢
-      simp only [LE.ok.injEq] at h
-      rw [← h, ents_setEnts]
-      simp only [hd, and_self, if_true, lk_put_same]
+  rcases depLoadEntry_cases s d mods n with ⟨v, hl, he⟩ | ⟨_, _, he⟩ | ⟨e1, v, _, _, _, he⟩ | ⟨e1, _, _, _, he⟩ | ⟨e1, hl, _, _, he⟩
+  · rw [he] at h ⊢; simp only [LE.ok.injEq] at h; rw [← h]; exact hl
+  · rw [he] at h; cases h
+  · rw [he] at h ⊢; simp only [LE.ok.injEq] at h
+    rw [← h, ents_setEnts]; simp only [hd, and_self, if_true, lk_put_same]
+  · rw [he] at h ⊢; simp only [LE.ok.injEq] at h
+    rw [← h, ents_setEnts]; simp only [hd, and_self, if_true, lk_put_same]
+  · rw [he] at h ⊢; simp only [LE.ok.injEq] at h; rw [← h]; exact hl
 
 /-! ### a chain whose root is a dependency loader -/
 
@@ -241,19 +277,13 @@ theorem fillD_plain (dps : List (Option Mods)) (s : Sys) (l : Nat) (n : Name)
   unfold fillD; rw [loadEntryD_plain dps s _ n h]
 
 @[simp] theorem depLoadEntry_ps (s : Sys) (d : Nat) (mods : Mods) (n : Name) : (depLoadEntry s d mods n).1.ps = s.ps := by
-  unfold depLoadEntry
-  split
-  · rfl
-  · split <;> rfl
+  rcases depLoadEntry_cases s d mods n with ⟨v, _, he⟩ | ⟨_, _, he⟩ | ⟨e, v, _, _, _, he⟩ | ⟨e, _, _, _, he⟩ | ⟨e, _, _, _, he⟩ <;>
+    rw [he] <;> rfl
 
 @[simp] theorem depLoadEntry_length (s : Sys) (d : Nat) (mods : Mods) (n : Name) :
     (depLoadEntry s d mods n).1.es.length = s.es.length := by
-  unfold depLoadEntry
-  split
-  · rfl
-  · split
-    · rfl
-    · simp
+  rcases depLoadEntry_cases s d mods n with ⟨v, _, he⟩ | ⟨_, _, he⟩ | ⟨e, v, _, _, _, he⟩ | ⟨e, _, _, _, he⟩ | ⟨e, _, _, _, he⟩ <;>
+    rw [he] <;> simp
 
 /-- a lookup through a chain rooted in a dependency loader that raises nothing is the plain lookup on the filled state -/
 theorem loadD_root (dps : List (Option Mods)) (s : Sys) (l d : Nat) (mods : Mods) (n : Name)
@@ -277,37 +307,65 @@ theorem loadD_root (dps : List (Option Mods)) (s : Sys) (l d : Nat) (mods : Mods
 
 /-! ### bindings: the lazy binding is the only one a lookup makes, and nothing is ever overwritten -/
 
+theorem bound_setEnts_put_mono (s : Sys) (d : Nat) (k : Key) (nv : Option V) (hj : (lk k (s.ents d)).join = none)
+    (l : Nat) (k' : Key) (v : V) (h : bound s l k' = some v) : bound (s.setEnts d (put k nv (s.ents d))) l k' = some v := by
+  have := bound_setEnts_setEntry_mono s l d k' k nv v h
+  rw [setEntry_unbound' _ _ _ hj] at this
+  exact this
+
 theorem depLoadEntry_bound_mono (s : Sys) (d : Nat) (mods : Mods) (n : Name) (l : Nat) (k : Key) (v : V)
     (h : bound s l k = some v) : bound (depLoadEntry s d mods n).1 l k = some v := by
-  unfold depLoadEntry
-  split
-  · exact h
-  · split
-    · exact h
-    · exact bound_setEnts_setEntry_mono s l d k (canon n) _ v h
+  rcases depLoadEntry_cases s d mods n with ⟨w, _, he⟩ | ⟨_, _, he⟩ | ⟨e, w, hj, _, _, he⟩ | ⟨e, hl, _, _, he⟩ | ⟨e, _, _, _, he⟩
+  · rw [he]; exact h
+  · rw [he]; exact h
+  · rw [he]; exact bound_setEnts_put_mono s d _ _ hj l k v h
+  · rw [he]; exact bound_setEnts_put_mono s d _ _ (by rw [hl]; rfl) l k v h
+  · rw [he]; exact h
 
 /-- what the dependency loader's `LoadEntry` binds: the name asked for, to what the dependencies bind, and only when it
-    held no entry for it -/
+    held no VALUE for it (a recorded miss does not stand in the way) -/
 theorem depLoadEntry_bound (s : Sys) (d : Nat) (mods : Mods) (n : Name) (hlen : d < s.es.length) (hp : PartsOK mods n)
     (l : Nat) (k : Key) :
     bound (depLoadEntry s d mods n).1 l k =
-      if l = d ∧ k = canon n ∧ lk (canon n) (s.ents d) = none then depSpec s mods n else bound s l k := by
-  cases hlk : lk (canon n) (s.ents d) with
-  | some e0 =>
-    rw [depLoadEntry_cached s d mods n e0 hlk]
-    simp
-  | none =>
-    obtain ⟨e, hf, hj⟩ := depFind_spec s d mods n hlk hp
-    rw [depLoadEntry_fresh s d mods n e hlk hf]
+      if l = d ∧ k = canon n ∧ bound s d (canon n) = none then depSpec s mods n else bound s l k := by
+  have hput : ∀ (nv : Option V), bound (s.setEnts d (put (canon n) nv (s.ents d))) l k =
+      if l = d ∧ k = canon n then nv else bound s l k := by
+    intro nv
     simp only [bound, ents_setEnts, hlen, and_true]
     by_cases hl : l = d
     · subst hl
       by_cases hk : k = canon n
-      · subst hk
-        simp only [and_self, if_true, lk_put_same, Option.join_some, hj]
-      · simp only [if_true, true_and, hk, false_and, if_false]
-        rw [lk_put_other hk]
+      · subst hk; simp only [and_self, if_true, lk_put_same, Option.join_some]
+      · simp only [if_true, hk, and_false, if_false]; rw [lk_put_other hk]
     · simp [hl]
+  rcases depLoadEntry_cases s d mods n with ⟨w, hl, he⟩ | ⟨hj, hf, he⟩ | ⟨e, w, hj, hf, hej, he⟩ | ⟨e, hl, hf, hej, he⟩ | ⟨e, hl, hf, hej, he⟩
+  · rw [he]
+    have : bound s d (canon n) = some w := by unfold bound; rw [hl]; rfl
+    simp [this]
+  · obtain ⟨e, hf', _⟩ := depFind_spec s d mods n hj hp
+    rw [hf] at hf'; cases hf'
+  · obtain ⟨e', hf', hs⟩ := depFind_spec s d mods n hj hp
+    rw [hf] at hf'; simp only [LE.ok.injEq] at hf'; subst hf'
+    rw [he, hput]
+    have hb : bound s d (canon n) = none := hj
+    simp only [hb, and_true]
+    rw [← hs, hej]
+  · have hj : (lk (canon n) (s.ents d)).join = none := by rw [hl]; rfl
+    obtain ⟨e', hf', hs⟩ := depFind_spec s d mods n hj hp
+    rw [hf] at hf'; simp only [LE.ok.injEq] at hf'; subst hf'
+    rw [he, hput]
+    have hb : bound s d (canon n) = none := hj
+    simp only [hb, and_true]
+    rw [← hs, hej]
+  · have hj : (lk (canon n) (s.ents d)).join = none := by rw [hl]; rfl
+    obtain ⟨e', hf', hs⟩ := depFind_spec s d mods n hj hp
+    rw [hf] at hf'; simp only [LE.ok.injEq] at hf'; subst hf'
+    rw [he]
+    have hb : bound s d (canon n) = none := hj
+    simp only [hb, and_true]
+    split
+    · rename_i hc; obtain ⟨rfl, rfl⟩ := hc; rw [← hs, hej]; exact hb
+    · rfl
 
 /-- the state a chain lookup leaves: the one the dependency loader (if the chain reaches one) leaves -/
 theorem loadEntryD_cons_fst (dps : List (Option Mods)) (s : Sys) (a : Nat) (anc : List Nat) (n : Name) :
@@ -359,12 +417,12 @@ theorem loadEntryD_bound_mono (dps : List (Option Mods)) (s : Sys) (ch : List Na
     · exact ih
 
 theorem depLoadEntry_WF (s : Sys) (h : WF s) (d : Nat) (mods : Mods) (n : Name) : WF (depLoadEntry s d mods n).1 := by
-  unfold depLoadEntry
-  split
-  · exact h
-  · split
-    · exact h
-    · exact WF_setEnts s h d _ (setEntry_keys_nodup _ _ _ (WF_ents s h d))
+  rcases depLoadEntry_cases s d mods n with ⟨v, _, he⟩ | ⟨_, _, he⟩ | ⟨e, v, _, _, _, he⟩ | ⟨e, _, _, _, he⟩ | ⟨e, _, _, _, he⟩
+  · rw [he]; exact h
+  · rw [he]; exact h
+  · rw [he]; exact WF_setEnts s h d _ (keysOf_put_nodup _ _ _ (WF_ents s h d))
+  · rw [he]; exact WF_setEnts s h d _ (keysOf_put_nodup _ _ _ (WF_ents s h d))
+  · rw [he]; exact h
 
 theorem loadEntryD_WF (dps : List (Option Mods)) (s : Sys) (h : WF s) (ch : List Nat) (n : Name) :
     WF (loadEntryD dps s ch n).1 := by
@@ -495,24 +553,41 @@ theorem WF_runD (dps : List (Option Mods)) (s : Sys) (ops : List Op) (h : WF s) 
 
 theorem depLoadEntry_ne_bad (s : Sys) (d : Nat) (mods : Mods) (n : Name) (hp : PartsOK mods n) :
     (depLoadEntry s d mods n).2 ≠ .bad := by
-  cases hlk : lk (canon n) (s.ents d) with
-  | some e0 => rw [depLoadEntry_cached s d mods n e0 hlk]; simp
-  | none =>
-    obtain ⟨e, hf, _⟩ := depFind_spec s d mods n hlk hp
-    rw [depLoadEntry_fresh s d mods n e hlk hf]; simp
+  rcases depLoadEntry_cases s d mods n with ⟨v, _, he⟩ | ⟨hj, hf, he⟩ | ⟨e, v, _, _, _, he⟩ | ⟨e, _, _, _, he⟩ | ⟨e, _, _, _, he⟩
+  · rw [he]; simp
+  · obtain ⟨e, hf', _⟩ := depFind_spec s d mods n hj hp
+    rw [hf] at hf'; cases hf'
+  · rw [he]; simp
+  · rw [he]; simp
+  · rw [he]; simp
 
-/-- an ill-formed qualified name the dependency loader has no entry for: `Parts()` panics, nothing is written -/
-theorem depLoadEntry_bad_of (s : Sys) (d : Nat) (mods : Mods) (n : Name) (hlk : lk (canon n) (s.ents d) = none)
+/-- an ill-formed qualified name the dependency loader holds no value for: `Parts()` panics, nothing is written -/
+theorem depLoadEntry_bad_of (s : Sys) (d : Nat) (mods : Mods) (n : Name) (hlk : bound s d (canon n) = none)
     (hp : ¬ PartsOK mods n) : depLoadEntry s d mods n = (s, .bad) := by
   unfold PartsOK at hp
   simp only [Classical.not_imp, Bool.not_eq_true, Option.isSome_eq_false_iff, Option.isNone_iff_eq_none] at hp
   obtain ⟨hq, hn⟩ := hp
-  unfold depLoadEntry
-  rw [hlk]
-  have : depFind s d mods n = .bad := by
+  have hbad : depFind s d mods n = .bad := by
     unfold depFind
     simp only [hq, if_true, hn]
-  simp only [this]
+  rcases depLoadEntry_cases s d mods n with ⟨v, hl, _⟩ | ⟨_, _, he⟩ | ⟨e, v, _, hf, _, _⟩ | ⟨e, _, hf, _, _⟩ | ⟨e, _, hf, _, _⟩
+  · unfold bound at hlk; rw [hl] at hlk; cases hlk
+  · exact he
+  · rw [hbad] at hf; cases hf
+  · rw [hbad] at hf; cases hf
+  · rw [hbad] at hf; cases hf
+
+/-- the answer of a dependency loader that holds no value for the name is what the dependencies bind -/
+theorem depLoadEntry_answer (s : Sys) (d : Nat) (mods : Mods) (n : Name) (hp : PartsOK mods n)
+    (hb : bound s d (canon n) = none) : (depLoadEntry s d mods n).2 = .ok (some (depSpec s mods n)) := by
+  have hj : (lk (canon n) (s.ents d)).join = none := hb
+  obtain ⟨e', hf', hs⟩ := depFind_spec s d mods n hj hp
+  rcases depLoadEntry_cases s d mods n with ⟨v, hl, _⟩ | ⟨_, hf, _⟩ | ⟨e, v, _, hf, hej, he⟩ | ⟨e, _, hf, hej, he⟩ | ⟨e, _, hf, hej, he⟩
+  · rw [hl] at hj; cases hj
+  · rw [hf] at hf'; cases hf'
+  · rw [hf] at hf'; simp only [LE.ok.injEq] at hf'; subst hf'; rw [he, ← hs, hej]
+  · rw [hf] at hf'; simp only [LE.ok.injEq] at hf'; subst hf'; rw [he, ← hs, hej]
+  · rw [hf] at hf'; simp only [LE.ok.injEq] at hf'; subst hf'; rw [he, ← hs, hej]
 
 /-- a chain without dependency loader: the operation is the one of `LoaderSeq` -/
 theorem stepD_plain (dps : List (Option Mods)) (s : Sys) (op : Op)
